@@ -119,6 +119,9 @@ var opInfo = map[string]struct {
 	"Text": {1, false, false}, "Append": {1, false, false}, "Format": {1, false, false}, "String": {1, false, false},
 	"GobEncode": {1, false, false}, "MarshalText": {1, false, false}, "MarshalJSON": {1, false, false},
 	"Attrs": {1, false, false},
+	"c.Add": {2, true, false}, "c.Sub": {2, true, false}, "c.Mul": {2, true, false}, "c.Quo": {2, true, false},
+	"c.FMA": {3, true, false}, "c.Sqrt": {1, true, false}, "c.Neg": {1, true, false}, "c.Abs": {1, true, false},
+	"c.Set": {1, true, false}, "c.Err": {0, false, false},
 	// harness-level fault event, not an API call: the receiver's mantissa buffer is
 	// replaced by a larger one whose spare capacity holds stale (legal) words, as
 	// if the variable had held a longer value before
@@ -418,6 +421,10 @@ func costGuard(w *World, op *Op) string {
 		if p > maxWorkPrec {
 			return "working precision exceeds the simulation's cost limit"
 		}
+	}
+	if name == "Float" && op.P == 0 && len(op.A) > 0 && w.V[op.A[0]].Prec() > maxWorkPrec {
+		// Float(nil) works at ceil(Prec()*log2(10)) bits
+		return "conversion at the operand's precision, which is above the simulation's cost limit"
 	}
 	if (name == "Text" || name == "Append") && op.M == 'b' || name == "Format" && strings.Contains(op.S, "b") {
 		// the 'b' format prints Prec() digits
